@@ -96,6 +96,7 @@ namespace sim
     SchedStats sched;
     unsigned tsan_reports = 0;
     unsigned would_terminate = 0;
+    unsigned worker_exceptions = 0;
     unsigned threads_created = 0;
   };
 
@@ -155,6 +156,7 @@ namespace sim
   int run_gwb_dat(const std::vector<std::string> &argv);
   unsigned grid_threads_created();
   unsigned grid_would_terminate();
+  unsigned grid_worker_exceptions();
   void grid_reset_counters();
 
   // allocation faults (sim/simalloc.cc)
